@@ -16,10 +16,9 @@ Obs == JsonDeserialize(IOEnv.OBS_FILE)
 Fail(i, law, w) == <<[i |-> i, law |-> law, w |-> w]>>
 SeqIf(c, s) == IF c THEN s ELSE <<>>
 
-\* the odometer sequence of a finite space
-RECURSIVE IterFrom(_,_)
-IterFrom(sp, d) == LET nx == NextSp(sp, d) IN <<d>> \o (IF nx.ok THEN IterFrom(sp, nx.d) ELSE <<>>)
-IterSeq(sp) == IterFrom(sp, FirstSp(sp))
+\* the DNAs of a finite space in iteration order = increasing DNA order (C11: the odometer is strictly increasing
+\* and exact; sorting avoids a recursion as deep as the space is large)
+IterSeq(f) == SetToSortSeq(DOMAIN f, LAMBDA a, b : TreeLess(f[a], f[b]))
 
 \* a selected choice one of whose candidates contains a placeholder the filter rejects
 NestedFiltered(t, w) ==
@@ -46,9 +45,10 @@ DnaLaws(i, t, w, sp, f, dist, x) ==
   \o SeqIf(x.json_after_encode # x.json_before, Fail(i, "template_modified_by_encode", x.tree))
   \o SeqIf(x.json_after_materialize # x.json_before, Fail(i, "template_modified_by_materialize", x.tree))
 
-IterLaws(i, t, w, sp, dist, o) ==
+IterLaws(i, t, w, sp, f, dist, o) ==
   LET it == o.iter
-      ref == [j \in 1..Len(IterSeq(sp)) |-> Decode(t, w, IterSeq(sp)[j])]
+      ds == IterSeq(f)
+      ref == [j \in 1..Len(ds) |-> Decode(t, w, ds[j])]
   IN SeqIf(Len(it) # Size(sp), Fail(i, "iter_count", <<Len(it), Size(sp)>>))
   \o SeqIf(dist /\ Cardinality(Range(it)) # Len(it), Fail(i, "iter_not_pairwise_different", <<Len(it), Cardinality(Range(it))>>))
   \o SeqIf(it # ref, Fail(i, "iter_values", <<Len(it)>>))
@@ -65,7 +65,7 @@ Failures(i) ==
   \o SeqIf(o.spec # sp, Fail(i, "dna_spec", o.spec))
   \o SeqIf(o.size # Size(sp), Fail(i, "space_size", <<o.size, Size(sp)>>))
   \o FlattenSeq([j \in 1..Len(o.dnas) |-> DnaLaws(i, t, w, sp, f, dist, o.dnas[j])])
-  \o SeqIf(o.hasiter, IterLaws(i, t, w, sp, dist, o))
+  \o SeqIf(o.hasiter, IterLaws(i, t, w, sp, f, dist, o))
 
 AllFailures == FlattenSeq([i \in 1..Len(Obs) |-> Failures(i)])
 
